@@ -1,4 +1,581 @@
-import HydroVerif.Model.C12
+/-
+C12 — property theorems (only). Model: `HydroVerif/Model/C12.lean`; invariants (`VecOk`, `WorldOk`) and
+helper lemmas: `HydroVerif/Lemmas/C12.lean`.
+
+The state machine: a `World` = an array store + the list of live vectors; `step` applies one operation
+(set by attribute, set by key, whole-vector assignment, reset, clone, dictionary round-trip — failing ones
+included) to the `k`-th vector; `run` folds a whole history. Values are `XR α` (NaN, ±∞, finite `α`); the
+theorems hold for every linearly ordered `α` (the driver runs `α = Float`), the ones about the `EPS` margin
+for every linearly ordered additive group and every `0 ≤ eps`.
+-/
+import HydroVerif.Lemmas.C12
+
+set_option linter.unusedSectionVars false
+set_option linter.unusedVariables false
+set_option linter.unusedSimpArgs false
+
 namespace HydroVerif.C12
-theorem stub_rejected_identity : (1 : Nat) = 1 := rfl
+
+section order
+variable {α : Type} [LinearOrder α] [Add α] [Sub α] [OfNat α 0]
+
+/-! ### construction establishes the invariant -/
+
+/-- `Vector(names, defaults, mins, maxs, flags)` with NaN-free bounds (the property's "finite or infinite
+bounds"), whenever the constructor accepts: the world made of that one vector is well formed — values inside
+the bounds (NaN only if allowed), real intervals, unique names, consistent flags, four distinct arrays. -/
+theorem init_ok (eps : α) (names : List String) (defaults mins maxs : Option (List (XR α))) (cb ch an : Bool)
+    (w : World α) (e : init eps names defaults mins maxs cb ch an = .ok w)
+    (hmins : ∀ m, mins = some m → m.any XR.isNaN = false)
+    (hmaxs : ∀ m, maxs = some m → m.any XR.isNaN = false) : WorldOk w := by
+  unfold init at e
+  split at e
+  · simp at e
+  · rename_i s v emk
+    simp only [Except.ok.injEq] at e; subst e
+    obtain ⟨_, ok, _⟩ := mk_ok emk hmins hmaxs
+    refine ⟨?_, ?_⟩
+    · intro k u hu
+      cases k with
+      | zero => simp at hu; subst hu; exact ok
+      | succ k => simp at hu
+    · intro i j vi vj hi hj hij
+      cases i <;> cases j <;> simp_all
+
+/-- a fresh vector holds its defaults, its hit flag is off, and it carries the flags it was given -/
+theorem init_view (eps : α) (names : List String) (defaults mins maxs : Option (List (XR α))) (cb ch an : Bool)
+    (w : World α) (e : init eps names defaults mins maxs cb ch an = .ok w) :
+    ∃ vw, w.view 0 = some vw ∧ vw.values = vw.defaults ∧ vw.hit = false ∧ vw.names = names
+      ∧ vw.checkBounds = cb ∧ vw.checkHit = ch ∧ vw.acceptNan = an := by
+  unfold init at e
+  split at e
+  · simp at e
+  · rename_i s v emk
+    simp only [Except.ok.injEq] at e; subst e
+    unfold mk at emk
+    split at emk
+    · simp at emk
+    · rename_i lo hi d _
+      simp only [Except.ok.injEq] at emk
+      have e2 := congrArg Prod.snd emk
+      have e1 := congrArg Prod.fst emk
+      simp only at e1 e2
+      subst e1; subst e2
+      refine ⟨_, rfl, ?_, rfl, rfl, rfl, rfl, rfl⟩
+      simp [view, mkFrom, Store.alloc]
+
+/-! ### every operation preserves the invariant; hence every history does -/
+
+theorem clone_effect (eps : α) {s s' : Store α} {v c : Vec} (h : VecOk s v)
+    (e : clone eps s v = .ok (s', c)) : Spawn s s' c ∧ VecOk s' c := by
+  obtain ⟨n1, n2⟩ := boundsOk_noNaN _ _ h.bounds (by rw [h.len_mins, h.len_maxs])
+  exact rebuild_ok e n1 n2 h.hit_off
+
+theorem dictRT_effect (eps : α) {s s' : Store α} {v c : Vec} (h : VecOk s v)
+    (e : fromDict eps s (toDict s v) = .ok (s', c)) : Spawn s s' c ∧ VecOk s' c := by
+  obtain ⟨n1, n2⟩ := boundsOk_noNaN _ _ h.bounds (by rw [h.len_mins, h.len_maxs])
+  obtain ⟨il, i1, i2, i3, i4, i5⟩ := items_spec v.n v.names (s.cells v.values) (s.cells v.mins) (s.cells v.maxs)
+    (s.cells v.defaults) rfl h.len_values h.len_mins h.len_maxs h.len_defaults
+  unfold fromDict at e
+  simp only [toDict, il, Nat.lt_irrefl, if_false] at e
+  have ht : List.take v.n (items v.names (s.cells v.values) (s.cells v.mins) (s.cells v.maxs) (s.cells v.defaults))
+      = items v.names (s.cells v.values) (s.cells v.mins) (s.cells v.maxs) (s.cells v.defaults) :=
+    List.take_of_length_le (by omega)
+  rw [ht, i1, i2, i3, i4, i5] at e
+  exact rebuild_ok e n1 n2 h.hit_off
+
+/-- INVARIANT STEP: whatever the operation (accepted or rejected, on whichever vector), a well-formed world
+stays well formed -/
+theorem step_ok (eps : α) (w : World α) (op : Op α) (hw : WorldOk w) : WorldOk (step eps w op).1 := by
+  cases op with
+  | setAttr k nm x => exact update_ok hw fun v s' v' hk e => setAttr_effect (hw.each k v hk) nm x e
+  | setKey k nm x => exact update_ok hw fun v s' v' hk e => setKey_effect (hw.each k v hk) nm x e
+  | setAll k xs => exact update_ok hw fun v s' v' hk e => setAll_effect eps (hw.each k v hk) xs e
+  | reset k => exact update_ok hw fun v s' v' hk e => reset_effect eps (hw.each k v hk) e
+  | clone k => exact (spawn_ok hw fun v s' c hk e => clone_effect eps (hw.each k v hk) e).1
+  | dictRT k => exact (spawn_ok hw fun v s' c hk e => dictRT_effect eps (hw.each k v hk) e).1
+
+/-- INVARIANT, ALL HISTORIES: after any sequence of operations of any length -/
+theorem run_ok (eps : α) (ops : List (Op α)) : ∀ (w : World α), WorldOk w → WorldOk (run eps w ops) := by
+  induction ops with
+  | nil => intro w hw; exact hw
+  | cons op ops ih => intro w hw; exact ih _ (step_ok eps w op hw)
+
+/-- what the invariant says about the observable state of each vector: values and defaults inside
+`[mins, maxs]` or NaN-with-permission, bounds real intervals (`View.ok` is the executable form the driver
+also reports) -/
+theorem worldOk_view_ok (w : World α) (hw : WorldOk w) (k : Nat) (vw : View α) (h : w.view k = some vw) :
+    vw.ok = true := by
+  unfold World.view at h
+  cases hk : w.vecs[k]? with
+  | none => simp [hk] at h
+  | some v =>
+    simp only [hk, Option.map_some, Option.some.injEq] at h
+    subst h
+    have ok := hw.each k v hk
+    simp [View.ok, view, ok.values_ok, ok.defaults_ok, ok.bounds]
+
+/-- the property's first two clauses for every history from a constructed vector: values always lie within
+the bounds and NaN is stored only when `accept_nan` — for every live vector (original, clones, round-trips) -/
+theorem values_within_bounds_always (eps : α) (names : List String) (defaults mins maxs : Option (List (XR α)))
+    (cb ch an : Bool) (w : World α) (e : init eps names defaults mins maxs cb ch an = .ok w)
+    (hmins : ∀ m, mins = some m → m.any XR.isNaN = false)
+    (hmaxs : ∀ m, maxs = some m → m.any XR.isNaN = false)
+    (ops : List (Op α)) (k : Nat) (vw : View α) (h : (run eps w ops).view k = some vw) :
+    valuesOk vw.acceptNan vw.values vw.mins vw.maxs = true := by
+  have := worldOk_view_ok _ (run_ok eps ops w (init_ok eps names defaults mins maxs cb ch an w e hmins hmaxs)) k vw h
+  simp only [View.ok, Bool.and_eq_true] at this
+  exact this.1.1
+
+/-! ### a rejected operation leaves the state untouched -/
+
+/-- no hypothesis at all: the returned world is the very same store and objects -/
+theorem rejected_identity (eps : α) (w : World α) (op : Op α) (e : Err)
+    (h : (step eps w op).2 = .rejected e) : (step eps w op).1 = w := by
+  cases op with
+  | setAttr k nm x => exact update_rejected w k _ e h
+  | setKey k nm x => exact update_rejected w k _ e h
+  | setAll k xs => exact update_rejected w k _ e h
+  | reset k => exact update_rejected w k _ e h
+  | clone k => exact spawn_rejected w k _ e h
+  | dictRT k => exact spawn_rejected w k _ e h
+
+/-- the failing assignments of the property are rejected: NaN without permission (by attribute / by key),
+wrong length, unknown key -/
+theorem failing_assignments_rejected (eps : α) (w : World α) (k : Nat) (v : Vec) (hk : w.vecs[k]? = some v) :
+    (∀ nm i, indexOf nm v.names = some i → v.acceptNan = false →
+        (step eps w (.setAttr k nm .nan)).2 = .rejected .nanValue
+        ∧ (step eps w (.setKey k nm .nan)).2 = .rejected .nanValue)
+    ∧ (∀ nm x, indexOf nm v.names = none → (step eps w (.setKey k nm x)).2 = .rejected .unknownKey)
+    ∧ (∀ xs, xs.length ≠ v.n → (step eps w (.setAll k xs)).2 = .rejected .badLength)
+    ∧ (∀ xs, xs.length = v.n → xs.any XR.isNaN = true → v.acceptNan = false →
+        (step eps w (.setAll k xs)).2 = .rejected .nanValue) := by
+  refine ⟨?_, ?_, ?_, ?_⟩
+  · intro nm i hi ha
+    simp [step, World.update, hk, setAttr, setKey, hi, ha, XR.isNaN]
+  · intro nm x hi
+    simp [step, World.update, hk, setKey, hi]
+  · intro xs hl
+    simp [step, World.update, hk, setAll, reject?, hl]
+  · intro xs hl hn ha
+    simp [step, World.update, hk, setAll, reject?, hl, hn, ha]
+
+/-! ### names, bounds, defaults (and option flags) never change -/
+
+theorem step_length_le (eps : α) (w : World α) (op : Op α) : w.vecs.length ≤ (step eps w op).1.vecs.length := by
+  cases op with
+  | setAttr k nm x => simp [step, update_length]
+  | setKey k nm x => simp [step, update_length]
+  | setAll k xs => simp [step, update_length]
+  | reset k => simp [step, update_length]
+  | clone k =>
+    simp only [step, World.spawn]; split
+    · exact Nat.le_refl _
+    · split <;> simp
+  | dictRT k =>
+    simp only [step, World.spawn]; split
+    · exact Nat.le_refl _
+    · split <;> simp
+
+/-- FRAME: an operation addressed to vector `op.target` does not change anything any OTHER live vector
+shows (values, bounds, defaults, names, flags, hit) — clones and originals are independent -/
+theorem step_frame (eps : α) (w : World α) (op : Op α) (hw : WorldOk w) (j : Nat) (hj : j < w.vecs.length)
+    (hne : j ≠ op.target) : (step eps w op).1.view j = w.view j := by
+  cases op with
+  | setAttr k nm x => exact update_view_other hw (fun v s' v' hk e => setAttr_effect (hw.each k v hk) nm x e) j hne
+  | setKey k nm x => exact update_view_other hw (fun v s' v' hk e => setKey_effect (hw.each k v hk) nm x e) j hne
+  | setAll k xs => exact update_view_other hw (fun v s' v' hk e => setAll_effect eps (hw.each k v hk) xs e) j hne
+  | reset k => exact update_view_other hw (fun v s' v' hk e => reset_effect eps (hw.each k v hk) e) j hne
+  | clone k => exact (spawn_ok hw fun v s' c hk e => clone_effect eps (hw.each k v hk) e).2 j hj
+  | dictRT k => exact (spawn_ok hw fun v s' c hk e => dictRT_effect eps (hw.each k v hk) e).2 j hj
+
+/-- clone / dictionary round-trip do not change the source either -/
+theorem spawn_keeps_all (eps : α) (w : World α) (k : Nat) (hw : WorldOk w) (j : Nat) (hj : j < w.vecs.length) :
+    (step eps w (.clone k)).1.view j = w.view j ∧ (step eps w (.dictRT k)).1.view j = w.view j :=
+  ⟨(spawn_ok hw fun v s' c hk e => clone_effect eps (hw.each k v hk) e).2 j hj,
+   (spawn_ok hw fun v s' c hk e => dictRT_effect eps (hw.each k v hk) e).2 j hj⟩
+
+/-- FROZEN STEP: names, mins, maxs, defaults, check_bounds, check_hitbounds, accept_nan of every live vector
+are the same after any operation -/
+theorem step_frozen (eps : α) (w : World α) (op : Op α) (hw : WorldOk w) (j : Nat) (hj : j < w.vecs.length) :
+    (step eps w op).1.frozen j = w.frozen j := by
+  by_cases hne : j = op.target
+  · cases op with
+    | setAttr k nm x =>
+      simp only [Op.target] at hne; subst hne
+      exact update_frozen_self hw fun v s' v' hk e => setAttr_effect (hw.each j v hk) nm x e
+    | setKey k nm x =>
+      simp only [Op.target] at hne; subst hne
+      exact update_frozen_self hw fun v s' v' hk e => setKey_effect (hw.each j v hk) nm x e
+    | setAll k xs =>
+      simp only [Op.target] at hne; subst hne
+      exact update_frozen_self hw fun v s' v' hk e => setAll_effect eps (hw.each j v hk) xs e
+    | reset k =>
+      simp only [Op.target] at hne; subst hne
+      exact update_frozen_self hw fun v s' v' hk e => reset_effect eps (hw.each j v hk) e
+    | clone k => simp only [World.frozen]; rw [(spawn_keeps_all eps w k hw j hj).1]
+    | dictRT k => simp only [World.frozen]; rw [(spawn_keeps_all eps w k hw j hj).2]
+  · simp only [World.frozen]; rw [step_frame eps w op hw j hj hne]
+
+/-- FROZEN, ALL HISTORIES: for every vector alive at some point, names / bounds / defaults / flags are the same
+after any further sequence of operations -/
+theorem run_frozen (eps : α) (ops : List (Op α)) : ∀ (w : World α), WorldOk w → ∀ j, j < w.vecs.length →
+    (run eps w ops).frozen j = w.frozen j := by
+  induction ops with
+  | nil => intro w _ j _; rfl
+  | cons op ops ih =>
+    intro w hw j hj
+    show (run eps (step eps w op).1 ops).frozen j = w.frozen j
+    rw [ih _ (step_ok eps w op hw) j (Nat.lt_of_lt_of_le hj (step_length_le eps w op)), step_frozen eps w op hw j hj]
+
+end order
+
+/-! ### the hit flag tells exactly whether the latest assignment was clipped -/
+section hit
+variable {α : Type} [LinearOrder α] [AddCommGroup α] [IsOrderedAddMonoid α]
+
+/-- the property's conditioning of assigned values: NaN, inside/on the bounds, or outside by more than EPS -/
+def inRegion (eps : α) (x lo hi : XR α) : Bool := x.isNaN || XR.within x lo hi || XR.outsideEps eps x lo hi
+
+/-- set by attribute / by key on element `i` (known name, accepted): element `i` becomes the assigned value
+moved to the nearest bound, nothing else moves, and the flag is set iff hit checking is on and the stored
+value differs from the assigned one. No margin is involved on this path, hence no conditioning. -/
+theorem setAttr_hit_exact {s s' : Store α} {v v' : Vec} (h : VecOk s v) (nm : String) (i : Nat) (x : XR α)
+    (hi : indexOf nm v.names = some i) (e : setAttr s v nm x = ((s', v'), .ok)) :
+    ∃ lo hi, (s.cells v.mins)[i]? = some lo ∧ (s.cells v.maxs)[i]? = some hi
+      ∧ s'.cells v'.values = (s.cells v.values).set i (XR.clipNp x lo hi)
+      ∧ (v'.hit = true ↔ v.checkHit = true ∧ XR.clipNp x lo hi ≠ x) := by
+  unfold setAttr at e
+  simp only [hi] at e
+  split at e
+  · simp at e
+  · split at e
+    · rename_i lo hi' hlo hhi
+      simp only [Prod.mk.injEq, and_true] at e; obtain ⟨rfl, rfl⟩ := e
+      have hb := all2_get boundElem _ _ i lo hi' h.bounds hlo hhi
+      simp only [boundElem, Bool.and_eq_true, Bool.not_eq_true'] at hb
+      refine ⟨lo, hi', hlo, hhi, ?_, ?_⟩
+      · simp [XR.clipPy_eq_clipNp x lo hi' hb.1.1 hb.1.2]
+      · cases hx : x.isNaN
+        · rw [XR.clipNp_ne_iff x lo hi' hx hb.1.1 hb.1.2 hb.2]
+          cases hc : v.checkHit
+          · simp [h.hit_off hc]
+          · simp
+        · have := XR.isNaN_eq_nan hx; subst this
+          rw [XR.clipNp_nan]
+          cases hc : v.checkHit
+          · simp [h.hit_off hc]
+          · cases lo <;> cases hi' <;> simp [XR.outside, XR.lt]
+    · simp at e
+
+theorem elem_hit_iff {eps : α} (heps : 0 ≤ eps) (x l h : XR α) (hb : boundElem l h = true)
+    (hr : inRegion eps x l h = true) : XR.outsideEps eps x l h = true ↔ XR.clipNp x l h ≠ x := by
+  simp only [boundElem, Bool.and_eq_true, Bool.not_eq_true'] at hb
+  cases hx : x.isNaN
+  · rw [XR.clipNp_ne_iff x l h hx hb.1.1 hb.1.2 hb.2]
+    constructor
+    · exact XR.outside_of_outsideEps heps x l h
+    · intro ho
+      simp only [inRegion, hx, Bool.false_or, Bool.or_eq_true] at hr
+      rcases hr with hw | he
+      · simp only [XR.within, XR.outside, Bool.and_eq_true, Bool.not_eq_true', Bool.or_eq_true] at hw ho
+        rcases ho with ho | ho <;> simp_all
+      · exact he
+  · have := XR.isNaN_eq_nan hx; subst this
+    rw [XR.clipNp_nan]
+    cases l <;> cases h <;> simp [XR.outsideEps, XR.lt, XR.subEps, XR.addEps]
+
+theorem hitAll_iff {eps : α} (heps : 0 ≤ eps) : ∀ (xs lo hi : List (XR α)), boundsOk lo hi = true →
+    all3 (inRegion eps) xs lo hi = true → xs.length = lo.length → xs.length = hi.length →
+    (hitAll eps xs lo hi = true ↔ clipAll xs lo hi ≠ xs) := by
+  intro xs
+  induction xs with
+  | nil => intro lo hi _ _ h1 h2; cases lo <;> cases hi <;> simp_all [hitAll, any3, clipAll, map3]
+  | cons x xs ih =>
+    intro lo hi hb hr h1 h2
+    cases lo with
+    | nil => simp at h1
+    | cons l lo =>
+      cases hi with
+      | nil => simp at h2
+      | cons h hi =>
+        simp only [boundsOk, all2, Bool.and_eq_true] at hb
+        simp only [all3, Bool.and_eq_true] at hr
+        have e1 := elem_hit_iff heps x l h hb.1 hr.1
+        have e2 := ih lo hi hb.2 hr.2 (by simpa using h1) (by simpa using h2)
+        simp only [hitAll] at e2
+        simp only [hitAll, any3, clipAll, map3, Bool.or_eq_true, ne_eq, List.cons.injEq, not_and_or]
+        simp only [clipAll] at e2
+        rw [e1, e2]
+
+/-- whole-vector assignment (accepted) with every assigned value inside/on the bounds, NaN, or more than EPS
+outside: the new values are the assigned values clipped element-wise into a FRESH array, and the flag is set
+iff hit checking is on and some stored value differs from the assigned one -/
+theorem setAll_hit_exact {eps : α} (heps : 0 ≤ eps) {s s' : Store α} {v v' : Vec} (h : VecOk s v)
+    (xs : List (XR α)) (e : setAll eps s v xs = ((s', v'), .ok))
+    (hr : all3 (inRegion eps) xs (s.cells v.mins) (s.cells v.maxs) = true) :
+    s'.cells v'.values = clipAll xs (s.cells v.mins) (s.cells v.maxs)
+      ∧ s.next ≤ v'.values
+      ∧ (v'.hit = true ↔ v.checkHit = true ∧ s'.cells v'.values ≠ xs) := by
+  unfold setAll at e
+  split at e
+  · simp at e
+  · rename_i hrej
+    obtain ⟨hl, _⟩ := reject?_none hrej
+    simp only [Prod.mk.injEq, and_true] at e; obtain ⟨rfl, rfl⟩ := e
+    have hh := hitAll_iff heps xs _ _ h.bounds hr (by rw [hl, h.len_mins]) (by rw [hl, h.len_maxs])
+    refine ⟨by simp, by simp, ?_⟩
+    simp only [alloc_ref, alloc_cells_new, Bool.and_eq_true, hh]
+
+/-- reset = assignment of the defaults: never clipped, so the flag is off afterwards and values = defaults -/
+theorem reset_exact {eps : α} (heps : 0 ≤ eps) {s : Store α} {v : Vec} (h : VecOk s v) :
+    ∃ s' v', reset eps s v = ((s', v'), .ok) ∧ s'.cells v'.values = s.cells v.defaults ∧ v'.hit = false
+      ∧ s.next ≤ v'.values := by
+  have hn := valuesOk_nan_an v.acceptNan _ _ _ h.defaults_ok (by rw [h.len_defaults, h.len_mins])
+    (by rw [h.len_defaults, h.len_maxs])
+  have hrej := reject?_of_ok v.acceptNan v.n _ h.len_defaults hn
+  have hc := clipAll_eq_self v.acceptNan _ _ _ h.bounds h.defaults_ok (by rw [h.len_defaults, h.len_mins])
+    (by rw [h.len_defaults, h.len_maxs])
+  have hh := hitAll_false_of_ok heps v.acceptNan _ _ _ h.defaults_ok
+  refine ⟨(s.alloc (clipAll (s.cells v.defaults) (s.cells v.mins) (s.cells v.maxs))).1,
+    { v with values := s.next,
+             hit := v.checkHit && hitAll eps (s.cells v.defaults) (s.cells v.mins) (s.cells v.maxs) },
+    ?_, ?_, ?_, ?_⟩
+  · simp only [reset, setAll, hrej, alloc_ref]
+  · simp [hc]
+  · simp [hh]
+  · simp
+
+end hit
+
+/-! ### clone and dictionary round-trip reproduce the full observable state as independent copies -/
+section copies
+variable {α : Type} [LinearOrder α] [AddCommGroup α] [IsOrderedAddMonoid α]
+
+theorem VecOk.arraysOk {s : Store α} {v : Vec} (h : VecOk s v) :
+    ArraysOk v.names v.checkBounds v.checkHit v.acceptNan (s.cells v.mins) (s.cells v.maxs) (s.cells v.defaults) :=
+  ⟨h.len_mins, h.len_maxs, h.len_defaults, h.bounds, h.defaults_ok, h.names, h.flags⟩
+
+/-- `clone()` of any live vector in any reachable world: never rejected; the new vector shows exactly what
+the source shows (names, values, bounds, defaults, hit flag, all three option flags); every array of the new
+vector is freshly allocated (so disjoint from every array that existed); every existing vector, the source
+included, shows what it showed before; the world stays well formed (hence later operations on either side
+never reach the other: `step_frame`). -/
+theorem clone_spec {eps : α} (heps : 0 ≤ eps) (w : World α) (hw : WorldOk w) (k : Nat) (v : Vec)
+    (hk : w.vecs[k]? = some v) :
+    ∃ w' c, step eps w (.clone k) = (w', .ok) ∧ w'.vecs = w.vecs ++ [c]
+      ∧ w'.view w.vecs.length = w.view k
+      ∧ (∀ r ∈ c.refs, w.store.next ≤ r)
+      ∧ (∀ j, j < w.vecs.length → w'.view j = w.view j)
+      ∧ WorldOk w' := by
+  have ok := hw.each k v hk
+  obtain ⟨s', c, e, vw⟩ := rebuild_self heps w.store v.hit ok.arraysOk ok.values_ok ok.len_values
+  have ec : clone eps w.store v = .ok (s', c) := e
+  obtain ⟨sp, _⟩ := clone_effect eps ok ec
+  have hstep : step eps w (.clone k) = (⟨s', w.vecs ++ [c]⟩, .ok) := by
+    simp only [step, World.spawn, hk, ec]
+  have hall := spawn_ok hw (k := k) (f := fun s v => clone eps s v)
+    (fun v s' c hk e => clone_effect eps (hw.each k v hk) e)
+  have hstep' : (w.spawn k fun s v => clone eps s v) = (⟨s', w.vecs ++ [c]⟩, .ok) := hstep
+  rw [hstep'] at hall
+  refine ⟨_, c, hstep, rfl, ?_, sp.fresh, hall.2, hall.1⟩
+  show ((w.vecs ++ [c])[w.vecs.length]?).map (C12.view s') = (w.vecs[k]?).map (C12.view w.store)
+  rw [List.getElem?_concat_length, hk, Option.map_some, Option.map_some, vw]; rfl
+
+/-- the same for `Vector.from_dict(vect.to_dict())` -/
+theorem dictRT_spec {eps : α} (heps : 0 ≤ eps) (w : World α) (hw : WorldOk w) (k : Nat) (v : Vec)
+    (hk : w.vecs[k]? = some v) :
+    ∃ w' c, step eps w (.dictRT k) = (w', .ok) ∧ w'.vecs = w.vecs ++ [c]
+      ∧ w'.view w.vecs.length = w.view k
+      ∧ (∀ r ∈ c.refs, w.store.next ≤ r)
+      ∧ (∀ j, j < w.vecs.length → w'.view j = w.view j)
+      ∧ WorldOk w' := by
+  have ok := hw.each k v hk
+  obtain ⟨s', c, e, vw⟩ := rebuild_self heps w.store v.hit ok.arraysOk ok.values_ok ok.len_values
+  obtain ⟨il, i1, i2, i3, i4, i5⟩ := items_spec v.n v.names (w.store.cells v.values) (w.store.cells v.mins)
+    (w.store.cells v.maxs) (w.store.cells v.defaults) rfl ok.len_values ok.len_mins ok.len_maxs ok.len_defaults
+  have ht : List.take v.n (items v.names (w.store.cells v.values) (w.store.cells v.mins) (w.store.cells v.maxs)
+      (w.store.cells v.defaults)) = items v.names (w.store.cells v.values) (w.store.cells v.mins)
+      (w.store.cells v.maxs) (w.store.cells v.defaults) := List.take_of_length_le (by omega)
+  have ec : fromDict eps w.store (toDict w.store v) = .ok (s', c) := by
+    unfold fromDict
+    simp only [toDict, il, Nat.lt_irrefl, if_false]
+    rw [ht, i1, i2, i3, i4, i5]; exact e
+  obtain ⟨sp, _⟩ := dictRT_effect eps ok ec
+  have hstep : step eps w (.dictRT k) = (⟨s', w.vecs ++ [c]⟩, .ok) := by
+    simp only [step, World.spawn, hk, ec]
+  have hall := spawn_ok hw (k := k) (f := fun s v => fromDict eps s (toDict s v))
+    (fun v s' c hk e => dictRT_effect eps (hw.each k v hk) e)
+  have hstep' : (w.spawn k fun s v => fromDict eps s (toDict s v)) = (⟨s', w.vecs ++ [c]⟩, .ok) := hstep
+  rw [hstep'] at hall
+  refine ⟨_, c, hstep, rfl, ?_, sp.fresh, hall.2, hall.1⟩
+  show ((w.vecs ++ [c])[w.vecs.length]?).map (C12.view s') = (w.vecs[k]?).map (C12.view w.store)
+  rw [List.getElem?_concat_length, hk, Option.map_some, Option.map_some, vw]; rfl
+
+/-- the exported dictionary holds exactly the observable state (so a round-trip loses nothing) -/
+theorem toDict_faithful (s : Store α) (v : Vec) (h : VecOk s v) :
+    let d := toDict s v
+    d.nval = v.n ∧ d.hit = v.hit ∧ d.checkBounds = v.checkBounds ∧ d.checkHit = v.checkHit
+      ∧ d.acceptNan = v.acceptNan ∧ d.data.length = v.n
+      ∧ d.data.map (·.name) = v.names ∧ d.data.map (·.value) = s.cells v.values
+      ∧ d.data.map (·.min) = s.cells v.mins ∧ d.data.map (·.max) = s.cells v.maxs
+      ∧ d.data.map (·.default) = s.cells v.defaults := by
+  obtain ⟨il, i1, i2, i3, i4, i5⟩ := items_spec v.n v.names (s.cells v.values) (s.cells v.mins) (s.cells v.maxs)
+    (s.cells v.defaults) rfl h.len_values h.len_mins h.len_maxs h.len_defaults
+  exact ⟨rfl, rfl, rfl, rfl, rfl, il, i1, i2, i3, i4, i5⟩
+
+end copies
+
+/-! ### transforms: read-only uses leave parameter values, constants and bounds unchanged -/
+section transforms
+variable {α : Type} [LinearOrder α] [Add α] [Sub α] [OfNat α 0]
+
+/-- a transform whose three vectors are three different objects of the world -/
+def Trans.wf (t : Trans) : Prop := t.bc ≠ t.params ∧ t.bc ≠ t.constants
+
+theorem sync_ok (eps : α) (w : World α) (t : Trans) (hw : WorldOk w) : WorldOk (sync eps w t) := by
+  unfold sync
+  split
+  · exact hw
+  · rename_i xs _
+    exact update_ok hw fun v s' v' hk e => setAll_effect eps (hw.each t.bc v hk) xs e
+
+theorem sync_view (eps : α) (w : World α) (t : Trans) (hw : WorldOk w) (j : Nat) (hj : j ≠ t.bc) :
+    (sync eps w t).view j = w.view j := by
+  unfold sync
+  split
+  · rfl
+  · rename_i xs _
+    exact update_view_other hw (fun v s' v' hk e => setAll_effect eps (hw.each t.bc v hk) xs e) j hj
+
+/-- READ-ONLY USES: forward, backward, jacobian, params_sample, params_logprior, printing leave everything the
+parameter vector and the constant vector show — values, bounds, defaults, names, flags, hit — exactly as it
+was (the only write, for the classes that own an inner BoxCox2, goes to that inner object's fresh array) -/
+theorem readonly_preserves (eps : α) (w : World α) (t : Trans) (op : TOp α) (hw : WorldOk w) (ht : t.wf)
+    (hro : op.readOnly = true) :
+    (tstep eps w t op).1.view t.params = w.view t.params
+      ∧ (tstep eps w t op).1.view t.constants = w.view t.constants := by
+  cases op <;> simp only [TOp.readOnly] at hro <;> try (exact absurd hro (by simp))
+  all_goals first
+    | exact ⟨rfl, rfl⟩
+    | exact ⟨sync_view eps w t hw _ (Ne.symm ht.1), sync_view eps w t hw _ (Ne.symm ht.2)⟩
+
+/-- any interleaving of read-only calls and assignments keeps the world of the transform well formed: its
+parameter values stay inside their bounds, NaN only where allowed (the constants of BoxCox1lam/1nu, LogSinh,
+Manly) -/
+theorem tstep_ok (eps : α) (w : World α) (t : Trans) (op : TOp α) (hw : WorldOk w) :
+    WorldOk (tstep eps w t op).1 := by
+  cases op with
+  | forward => exact sync_ok eps w t hw
+  | backward => exact sync_ok eps w t hw
+  | jacobian => exact sync_ok eps w t hw
+  | sample => exact hw
+  | logprior => exact hw
+  | print => exact hw
+  | setItem nm x =>
+    simp only [tstep]
+    split
+    · split
+      · exact update_ok hw fun v s' v' hk e => setKey_effect (hw.each _ v hk) nm x e
+      · split
+        · exact update_ok hw fun v s' v' hk e => setKey_effect (hw.each _ v hk) nm x e
+        · exact update_ok hw fun v s' v' hk e => setKey_effect (hw.each _ v hk) nm x e
+    · exact hw
+  | setAttr nm x =>
+    simp only [tstep]
+    split
+    · split
+      · exact update_ok hw fun v s' v' hk e => setAttr_effect (hw.each _ v hk) nm x e
+      · split
+        · exact update_ok hw fun v s' v' hk e => setAttr_effect (hw.each _ v hk) nm x e
+        · exact hw
+    · exact hw
+  | reset => exact update_ok hw fun v s' v' hk e => reset_effect eps (hw.each _ v hk) e
+  | setParams xs => exact update_ok hw fun v s' v' hk e => setAll_effect eps (hw.each _ v hk) xs e
+  | setConstants xs => exact update_ok hw fun v s' v' hk e => setAll_effect eps (hw.each _ v hk) xs e
+
+theorem trun_ok (eps : α) (t : Trans) (ops : List (TOp α)) : ∀ (w : World α), WorldOk w →
+    WorldOk (ops.foldl (fun w op => (tstep eps w t op).1) w) := by
+  induction ops with
+  | nil => intro w hw; exact hw
+  | cons op ops ih => intro w hw; exact ih _ (tstep_ok eps w t op hw)
+
+/-- bounds, defaults, names and flags of the parameter and constant vectors (and of the inner BoxCox2) are the
+same after ANY transform operation, assignments included -/
+theorem tstep_frozen (eps : α) (w : World α) (t : Trans) (op : TOp α) (hw : WorldOk w) (j : Nat) :
+    (tstep eps w t op).1.frozen j = w.frozen j := by
+  have upd : ∀ (k : Nat) (f : Store α → Vec → (Store α × Vec) × Out),
+      (∀ v s' v', w.vecs[k]? = some v → f w.store v = ((s', v'), .ok) → Assign w.store v s' v' ∧ VecOk s' v') →
+      (w.update k f).1.frozen j = w.frozen j := by
+    intro k f hf
+    by_cases hjk : j = k
+    · subst hjk; exact update_frozen_self hw hf
+    · simp only [World.frozen]; rw [update_view_other hw hf j hjk]
+  have hs : (sync eps w t).frozen j = w.frozen j := by
+    unfold sync
+    split
+    · rfl
+    · rename_i xs _
+      exact upd _ _ fun v s' v' hk e => setAll_effect eps (hw.each t.bc v hk) xs e
+  cases op with
+  | forward => exact hs
+  | backward => exact hs
+  | jacobian => exact hs
+  | sample => rfl
+  | logprior => rfl
+  | print => rfl
+  | setItem nm x =>
+    simp only [tstep]
+    split
+    · split
+      · exact upd _ _ fun v s' v' hk e => setKey_effect (hw.each _ v hk) nm x e
+      · split
+        · exact upd _ _ fun v s' v' hk e => setKey_effect (hw.each _ v hk) nm x e
+        · exact upd _ _ fun v s' v' hk e => setKey_effect (hw.each _ v hk) nm x e
+    · rfl
+  | setAttr nm x =>
+    simp only [tstep]
+    split
+    · split
+      · exact upd _ _ fun v s' v' hk e => setAttr_effect (hw.each _ v hk) nm x e
+      · split
+        · exact upd _ _ fun v s' v' hk e => setAttr_effect (hw.each _ v hk) nm x e
+        · rfl
+    · rfl
+  | reset => exact upd _ _ fun v s' v' hk e => reset_effect eps (hw.each _ v hk) e
+  | setParams xs => exact upd _ _ fun v s' v' hk e => setAll_effect eps (hw.each _ v hk) xs e
+  | setConstants xs => exact upd _ _ fun v s' v' hk e => setAll_effect eps (hw.each _ v hk) xs e
+
+end transforms
+
+/-! ### the hypotheses are satisfiable: concrete, non-trivial instances over `Int` -/
+section examples
+
+/-- a 2-name vector with half-infinite bounds, hit checking on, NaN allowed; the history assigns out of bounds by
+key, clones, assigns a NaN by attribute on the clone, round-trips it and resets the original -/
+def exInit : Except Err (World Int) :=
+  init (1 : Int) ["a", "b"] (some [.fin 5, .nan]) (some [.fin 0, .ninf]) (some [.fin 10, .pinf]) true true true
+
+def exOps : List (Op Int) :=
+  [.setKey 0 "a" (.fin 50), .clone 0, .setAttr 1 "b" .nan, .dictRT 1, .reset 0, .setAll 0 [.fin 3],
+   .setAll 1 [.fin (-4), .pinf]]
+
+example : (match exInit with
+    | .ok w => ((run 1 w exOps).vecs.length, (run 1 w exOps).view 0 |>.map (·.values),
+                (run 1 w exOps).view 1 |>.map (fun v => (v.values, v.hit)), (run 1 w exOps).view 2 |>.map (·.hit))
+    | .error _ => (0, none, none, none))
+    = (3, some [.fin 5, .nan], some ([.fin 0, .pinf], true), some true) := by decide
+
+/-- `init_ok`'s hypotheses hold for it (NaN-free bounds) -/
+example : (∀ m, (some [XR.fin (0 : Int), .ninf]) = some m → m.any XR.isNaN = false) := by
+  intro m h; cases h; decide
+
+/-- the region hypothesis of `setAll_hit_exact` is met by an assignment that IS clipped -/
+example : all3 (inRegion (1 : Int)) [.fin 50, .nan] [.fin 0, .ninf] [.fin 10, .pinf] = true := by decide
+
+/-- a well-formed transform descriptor (params 0, constants 1, inner BoxCox2 2) -/
+example : (⟨.bc1lam, 0, 1, 2⟩ : Trans).wf := by constructor <;> decide
+
+end examples
+
 end HydroVerif.C12
